@@ -87,8 +87,8 @@ class Shelxfile():
     _r1_regex = re.compile(r'^REM\s+R1\s+=', re.IGNORECASE)
     _wr2_regex = re.compile(r'^REM\s+wR2\s+=', re.IGNORECASE)
     _parameters_regex = re.compile(r'^REM\s+\d+\s+parameters\s+refined', re.IGNORECASE)
-    _diff_peak_regex = re.compile(r'^REM\sHighest\sdifference', re.IGNORECASE)
-    _goof_regex = re.compile(r'^REM\swR2\s=\s.*,\sGooF', re.IGNORECASE)
+    _diff_peak_regex = re.compile(r'^REM\s+Highest\s+difference', re.IGNORECASE)
+    _goof_regex = re.compile(r'^REM\s+wR2\s+=\s.*,\s+GooF', re.IGNORECASE)
     _spgrp_regex = re.compile(r'^REM\s+\S+\s+in\s+\S+', re.IGNORECASE)
 
     def __init__(self, verbose: bool = False, debug: bool = False) -> None:
